@@ -58,3 +58,115 @@ pub fn path_pool(t: &mut Tape, e: &Expr, pattern: Option<&str>, scale: usize) ->
 pub fn short(s: &str) -> String {
     format!("{:?}", s)
 }
+
+// ------------------------------------------------------------------------------------------------
+// glob-or-combinator patterns for the query properties (C09–C12)
+
+use wax::query::{DepthVariance, TextVariance, When};
+use wax::{Any, Program};
+
+pub enum Pat {
+    G(Glob<'static>),
+    A(Any<'static>),
+}
+
+impl Pat {
+    pub fn is_match(&self, p: &str) -> bool {
+        match self {
+            Pat::G(g) => g.is_match(p),
+            Pat::A(a) => a.is_match(p),
+        }
+    }
+    pub fn depth(&self) -> DepthVariance {
+        match self {
+            Pat::G(g) => g.depth(),
+            Pat::A(a) => a.depth(),
+        }
+    }
+    pub fn text(&self) -> TextVariance<'static> {
+        match self {
+            Pat::G(g) => g.text(),
+            Pat::A(a) => a.text(),
+        }
+    }
+    pub fn has_root(&self) -> When {
+        match self {
+            Pat::G(g) => g.has_root(),
+            Pat::A(a) => a.has_root(),
+        }
+    }
+    pub fn is_exhaustive(&self) -> When {
+        match self {
+            Pat::G(g) => g.is_exhaustive(),
+            Pat::A(a) => a.is_exhaustive(),
+        }
+    }
+    pub fn is_any(&self) -> bool {
+        matches!(self, Pat::A(_))
+    }
+}
+
+/// Build a glob (one expression) or an `any` combinator (several).  `Ok(None)`: does not build.
+pub fn build_pat(exprs: &[Expr]) -> Result<Option<(String, Pat)>, String> {
+    let texts: Vec<String> = exprs.iter().map(render_text).collect();
+    if texts.len() == 1 {
+        return Ok(match build(&texts[0])? {
+            Ok(g) => Some((texts[0].clone(), Pat::G(g))),
+            Err(_) => None,
+        });
+    }
+    let mut gs = Vec::new();
+    for t in &texts {
+        match build(t)? {
+            Ok(g) => gs.push(g),
+            Err(_) => return Ok(None),
+        }
+    }
+    match guard(|| wax::any(gs))? {
+        Ok(a) => Ok(Some((format!("any({:?})", texts), Pat::A(a)))),
+        Err(_) => Ok(None),
+    }
+}
+
+/// pool over all member expressions of a pattern
+pub fn pat_pool(t: &mut Tape, exprs: &[Expr], scale: usize) -> Vec<String> {
+    let mut out = Vec::new();
+    for e in exprs {
+        let text = render_text(e);
+        let pat = pattern_of(&text);
+        out.extend(path_pool(t, e, pat.as_deref(), scale));
+    }
+    out.sort();
+    out.dedup();
+    out
+}
+
+#[derive(serde::Serialize, serde::Deserialize, Clone, Debug)]
+pub struct PatCase {
+    pub exprs: Vec<Expr>,
+    pub paths: Vec<String>,
+}
+
+pub fn shrink_patcase(c: &PatCase) -> Vec<PatCase> {
+    let mut out = Vec::new();
+    if c.paths.len() > 1 {
+        for p in &c.paths {
+            out.push(PatCase { exprs: c.exprs.clone(), paths: vec![p.clone()] });
+        }
+    }
+    if c.exprs.len() > 1 {
+        for i in 0..c.exprs.len() {
+            let mut e = c.exprs.clone();
+            e.remove(i);
+            out.push(PatCase { exprs: e, paths: c.paths.clone() });
+        }
+    }
+    for (i, e) in c.exprs.iter().enumerate() {
+        for s in shrink_expr(e) {
+            let mut es = c.exprs.clone();
+            es[i] = normalize(&s, true);
+            out.push(PatCase { exprs: es, paths: c.paths.clone() });
+        }
+    }
+    out
+}
